@@ -196,6 +196,8 @@ def generate(got):
     per = {}
     stats = {}
     for name, d in fams:
+        if name.startswith("big"):
+            continue        # exact tie only (KernelGen_big.v)
         ts = got[name]
         vars_ = d["vars"]
         idx = {v: i for i, v in enumerate(vars_)}
@@ -293,6 +295,8 @@ def generate(got):
 
     files = {}
     for kfile, famlist in symkern.FILES:
+        if kfile == "KernelGen_big.v":
+            continue        # results beyond 2^53 are not exactly representable: no rounding bound is claimed for them
         fname = kfile.replace("KernelGen_", "RoundGen_")
         members = [n for n, _ in fams if n.split("_")[0] in famlist]
         summaries = []
